@@ -471,10 +471,16 @@ Boolean MACRO_Processor(PInputTag PInp, as_dynstr_t* p_dest) {
 
     /* process parameters */
 
+    /* process parameters: every formal parameter gets replaced.  After SHIFT,
+       the argument list may have become shorter than the parameter list; the
+       parameters that ran out of arguments are empty: */
+
     Lauf = PInp->Params;
-    for (z = 1; z <= PInp->ParCnt; z++) {
-        ExpandLine(Lauf->Content, z, p_dest);
-        Lauf = Lauf->Next;
+    for (z = 1; z <= PInp->Macro->ParamCount; z++) {
+        ExpandLine(Lauf ? Lauf->Content : "", z, p_dest);
+        if (Lauf) {
+            Lauf = Lauf->Next;
+        }
     }
 
     /* process special parameters */
@@ -927,6 +933,7 @@ static void ExpandMacro(PMacroRec OneMacro) {
 
             else if (z1 > OneMacro->ParamCount) {
                 AddStringListLast(&(Tag->Params), ArgStr[z1].str.p_str);
+                Tag->ParCnt++;
             }
         }
 
